@@ -90,10 +90,50 @@ theorem range_read_exact_inmem (val : Bytes) (off len : Int) (h : InDomain off l
       simp only [this, and_self, if_true]
       congr 2; omega
 
-/-- the same statement for the local store (seek + limited reader): modelled (`localRead`) and
-compared with the real store on all (offset, length) pairs for sizes 0..40, not proved -/
-def range_read_exact_local_full : Prop :=
-  ∀ (val : Bytes) (off len : Int), InDomain off len val.length → localRead val ⟨off, len⟩ = .ok (specRange val off len)
+/-- **Ranged reads return exactly the requested bytes** (local store: seek + limited reader), on
+the domain -/
+theorem range_read_exact_local (val : Bytes) (off len : Int) (h : InDomain off len val.length) :
+    localRead val ⟨off, len⟩ = .ok (specRange val off len) := by
+  have hs := positiveRange_spec off len val.length h
+  obtain ⟨h1, h2, h3, h4, h5, h6⟩ := h
+  simp only at hs
+  obtain ⟨s1, s2, s3, s4, s5, s6⟩ := hs
+  unfold localRead
+  by_cases hneg : off < 0
+  · simp only [hneg, if_true]
+    have hnn : ¬ ((BlobRange.mk off len).positiveRange val.length).offset < 0 := by omega
+    simp only [hnn, if_false]
+    have hspec : specRange val off len =
+        (val.drop ((BlobRange.mk off len).positiveRange val.length).offset.toNat).take
+          ((BlobRange.mk off len).positiveRange val.length).length.toNat := by
+      unfold specRange
+      simp only [Bool.or_eq_true, beq_iff_eq, decide_eq_true_eq]
+      rw [← s1, ← s4]
+    rw [hspec]
+    by_cases hz : ((BlobRange.mk off len).positiveRange val.length).length = 0
+    · have hend : ((BlobRange.mk off len).positiveRange val.length).offset = val.length := by
+        rw [s4] at hz
+        split at hz <;> omega
+      simp [hz, hend]
+    · simp [hz]
+  · simp only [hneg, if_false]
+    have hnn : ¬ off < 0 := hneg
+    unfold specRange
+    simp only [hneg, if_false, Bool.or_eq_true, beq_iff_eq, decide_eq_true_eq]
+    have hrest : (val.drop off.toNat).length = (val.length : Int) - off := by
+      rw [List.length_drop]; omega
+    by_cases hz : len = 0
+    · subst hz
+      simp only [true_or, if_true, bne_self_eq_false, Bool.false_eq_true, if_false]
+      congr 1
+      rw [List.take_of_length_le]; omega
+    · have hb : (len != 0) = true := by simpa using hz
+      simp only [hb, if_true, hz, false_or]
+      by_cases hc : off + len > val.length
+      · simp only [hc, if_true]
+        congr 1
+        rw [List.take_of_length_le (by omega), List.take_of_length_le (by omega)]
+      · simp only [hc, if_false]
 
 example : InDomain (-3) 0 10 := ⟨by omega, by omega, by omega, by omega, by omega, by omega⟩
 
